@@ -67,6 +67,12 @@ def contract_try_as_register(eng, operand, state):
     return None
 
 
+def _setpos(tok, start, end):
+    """give a stand-in token a definite place in the source text (Token.__init__ copies its contexts, so spans are compared by position)"""
+    tok.attrs["ctx_start"].attrs["pos"] = start
+    tok.attrs["ctx_end"].attrs["pos"] = end
+
+
 def install(eng, *names):
     table = {"get_as_int": contract_get_as_int, "wait": contract_wait, "try_as_register": contract_try_as_register}
     for n in names:
@@ -136,16 +142,18 @@ def shape_build(eng, shape, lazy=False):
             ast.Sub() if _o == "sub" else ast.Add(),
             eng_.call(eng_.getattr(_n.attrs["lhs"], "resolve"), [state], {}), eng_.call(eng_.getattr(_n.attrs["rhs"], "resolve"), [state], {})))
         val = va - vb if opn == "sub" else va + vb
+        _setpos(a, 11, 14); _setpos(b, 17, 20); _setpos(node.attrs["rhs"], 17, 24); _setpos(node, 11, 24)       # 'aaa + bbb(rN)' written at offsets 11..24
         if shape.startswith("@"):
-            return op(eng, "deferred", node), dict(mode=7, reg=r, ext=("abs", val), warn=[], hoisted=True)
-        return node, dict(mode=6, reg=r, ext=("abs", val), warn=[], hoisted=True)
+            return op(eng, "deferred", node), dict(mode=7, reg=r, ext=("abs", val), warn=[], hoisted=True, index_span=(node, b))
+        return node, dict(mode=6, reg=r, ext=("abs", val), warn=[], hoisted=True, index_span=(node, b))
     if shape == "-a(Rn)":
         a, va = L("a")
         s, r = reg_symbol(eng)
         node = op(eng, "neg", op(eng, "call", a, s))
         node.attrs["resolve"] = Builtin("resolve", lambda eng_, state, _n=node: eng_.binop(
             ast.Sub(), 0, eng_.call(eng_.getattr(_n.attrs["operand"], "resolve"), [state], {})))
-        return node, dict(mode=6, reg=r, ext=("abs", -va), warn=[], hoisted=True)
+        _setpos(a, 12, 15); _setpos(node.attrs["operand"], 12, 19); _setpos(node, 11, 19)                       # '-aaa(rN)' written at offsets 11..19
+        return node, dict(mode=6, reg=r, ext=("abs", -va), warn=[], hoisted=True, index_span=(node, a))
     raise ValueError(shape)
 
 
@@ -173,9 +181,15 @@ def unit_rm_encode(eng, shape, lazy, fp=False, prop="C01"):
     def run(eng):
         install(eng, "wait", "get_as_int", "try_as_register")
         eng.I = {}
+        asked = []
+
+        def recording_get_as_int(eng_, state, what, token, arg_token, bitness, unsigned, default=None):
+            asked.append((what, token, arg_token))
+            return contract_get_as_int(eng_, state, what, token, arg_token, bitness, unsigned, default)
+        eng.contracts["get_as_int"] = recording_get_as_int
         tok, info = shape_build(eng, shape, lazy)
         rel = int_input(eng, "rel")
-        eng.I.update(info=info, rel=rel)
+        eng.I.update(info=info, rel=rel, asked=asked)
         stub = stub_obj(eng, "FP11RMOperandStub" if fp else "RegisterModeOperandStub", "s", [5, 4, 3, 2, 1, 0])
         return eng.call(Bound(stub, stub.cls.lookup("encode")), [tok, state_for(eng, Lazy(rel) if lazy else rel)], {})
 
@@ -185,6 +199,14 @@ def unit_rm_encode(eng, shape, lazy, fp=False, prop="C01"):
         errs = errors(eng)
         ext = info["ext"]
         reg = info["reg"]
+        if info.get("index_span"):
+            # C17: the regrouped index expression - what a diagnostic about the index points at - covers exactly the text that was written,
+            # from the start of the whole expression to the end of the last operand before '(reg)'
+            first, last = info["index_span"]
+            idx = [a_ for w_, t_, a_ in eng.I["asked"] if w_ == "an index"]
+            eng.prove("the-regrouped-index-expression-spans-the-written-text(start of the expression .. end of the operand before '(reg)')",
+                      len(idx) >= 1 and all(a_.attrs["ctx_start"].attrs["pos"] == first.attrs["ctx_start"].attrs["pos"]
+                                            and a_.attrs["ctx_end"].attrs["pos"] == last.attrs["ctx_end"].attrs["pos"] for a_ in idx))
         # acceptance condition from the spec
         ok = z3.BoolVal(True)
         if info.get("regexpr"):
